@@ -20,6 +20,21 @@ func (w *World) applyQueries(qs []QueryStep) error {
 			continue
 		}
 		res := w.C.QueryRaw(q.Path, data, q.Height)
+		if q.Path == pathDID && !q.Raw {
+			// a client's read, possibly of an earlier height: afterwards the read of the latest
+			// state must still be the committed one
+			var r didtypes.QueryDIDRequest
+			if r.Unmarshal(data) == nil {
+				if bz, err := base64.StdEncoding.DecodeString(r.DidBase64); err == nil {
+					if q.Height > 0 {
+						w.Label("did read at an earlier height")
+					}
+					if err := w.checkDIDReadsNow([]string{string(bz)}); err != nil {
+						return err
+					}
+				}
+			}
+		}
 		w.shape("query:" + q.Path[strings.LastIndex(q.Path, "/")+1:])
 		if !q.Raw {
 			w.Label("c17 query reached handler")
